@@ -2,7 +2,7 @@
     harness from the front end's resolved trees, a result leaves as an s-expression that the
     harness also prints for the real [Spec]. References are printed as their position in
     the final reference table (implicit names are hashes in the code, keys in the model). *)
-From Oal Require Export Eval.
+From Oal Require Export Eval Typing.
 Local Open Scope N_scope.
 
 Inductive sx := A (z : Z) | L (l : list sx).
@@ -234,4 +234,52 @@ Definition run_eval_lexical (x : sx) : sx :=
   match dprog x with
   | None => L [A 4%Z]
   | Some (P, rs) => L [ebool (closed_progb P && forallb (closed []) rs); eresult (eval_program true P FUEL rs)]
+  end.
+
+(** * the typing tie: the tags the real inference left on declarations and recursion nodes *)
+Definition dbase (x : sx) : option base :=
+  match x with
+  | A 0%Z => Some BText | A 1%Z => Some BNumber | A 2%Z => Some BStatus | A 3%Z => Some BPrimitive
+  | A 4%Z => Some BRelation | A 5%Z => Some BObject | A 6%Z => Some BContent | A 7%Z => Some BTransfer
+  | A 8%Z => Some BArray | A 9%Z => Some BUri | A 10%Z => Some BAny | _ => None
+  end.
+
+Fixpoint dtag (x : sx) : option tag :=
+  match x with
+  | L [A 0%Z; b] => let? b := dbase b in Some (TBase b)
+  | L [A 1%Z; t] => let? t := dtag t in Some (TProperty t)
+  | L [A 2%Z; L bs; r] =>
+      let? bs := (fix go (l : list sx) : option (list tag) :=
+                    match l with
+                    | [] => Some []
+                    | y :: l' => let? a := dtag y in let? r := go l' in Some (a :: r)
+                    end) bs in
+      let? r := dtag r in Some (TFunc bs r)
+  | L [A 3%Z; n] => let? n := dN n in Some (TVar n)
+  | _ => None
+  end.
+
+Definition dtenv (x : sx) : option tenv :=
+  match x with
+  | L [sg; rt] =>
+      let? sg := dlist (dlist dtag) sg in
+      let? rt := dlist (fun y => match y with
+                                 | L [m; i; t] => let? m := dN m in let? i := dN i in let? t := dtag t in Some ((m, i), t)
+                                 | _ => None
+                                 end) rt in
+      Some (mk_tenv sg rt)
+  | _ => None
+  end.
+
+Definition tenv_ground (E : tenv) : bool := forallb (forallb ground) (sig E).
+
+(** input: (program tenv); output: (decoded? ground? well-typed? @names consistent?) *)
+Definition run_typing (x : sx) : sx :=
+  match x with
+  | L [p; te] =>
+      match dprog p, dtenv te with
+      | Some (P, rs), Some E => L [A 1%Z; ebool (tenv_ground E); ebool (wt_progb E P rs); ebool (named_okb (named P E))]
+      | _, _ => L [A 0%Z]
+      end
+  | _ => L [A 0%Z]
   end.
